@@ -771,6 +771,11 @@ structure StoreQuirks where
 
 def StoreQuirks.dir (q : StoreQuirks) : FieldMeta → Dir := if q.selfRef then dirToday else dirFixed
 
+/-- the code as it is: `remote_side` is generated for references into the own table hierarchy (fix 492980c: F-C05-1
+repaired, every single reference is MANYTOONE), `from_dao` is repaired (F-C05-2/4); the uniquing relationship loader
+(F-C05-3) is open -/
+def StoreQuirks.asIs : StoreQuirks := ⟨false, true, false⟩
+
 /-- session B loads every root by primary key through the `via`-th DAO class of its chain (own class first; the
 last one if the chain is shorter) -/
 def loadRoots (db : DB) (dh : Heap) (via : Nat) (droots : List Nat) : List Nat :=
